@@ -4,7 +4,7 @@ import Driver.Barrier
 import Driver.SOH
 open Driver
 
-def comps : List Comp := [LatchD.comp, LockFamD.comp, BarrierD.comp, SOHD.comp]
+def comps : List Comp := [LatchD.comp, LockFamD.comp, BarrierD.comp, SOHD.comp, SOHD.compNoTap]
 
 def main (args : List String) : IO UInt32 := do
   match args with
